@@ -600,6 +600,27 @@ func init() {
 		}
 		return tuple{i, iface{}}
 	})
+	reg("strconv.ParseFloat", func(fr *frame, a []value) value {
+		f, e := strconv.ParseFloat(strArg(fr, a[0]), int(asInt64(a[1])))
+		if e != nil {
+			return tuple{f, fr.ex.mkError(e.Error())}
+		}
+		return tuple{f, iface{}}
+	})
+	reg("strconv.ParseBool", func(fr *frame, a []value) value {
+		b, e := strconv.ParseBool(strArg(fr, a[0]))
+		if e != nil {
+			return tuple{b, fr.ex.mkError(e.Error())}
+		}
+		return tuple{b, iface{}}
+	})
+	reg("strconv.Unquote", func(fr *frame, a []value) value {
+		u, e := strconv.Unquote(strArg(fr, a[0]))
+		if e != nil {
+			return tuple{u, fr.ex.mkError(e.Error())}
+		}
+		return tuple{u, iface{}}
+	})
 	reg("strconv.Quote", func(fr *frame, a []value) value { return strconv.Quote(strArg(fr, a[0])) })
 	reg("strconv.FormatBool", func(fr *frame, a []value) value { return strconv.FormatBool(a[0].(bool)) })
 
